@@ -322,6 +322,26 @@ pub fn call_monitors(op: Op, before: &[u8], after: &[u8], out: &CallOut) -> Vec<
             format!("{} moved (ci {}, ch {}) to (ci {}, ch {}): {}", op.api(), c0, h0, c1, h1, desc()),
         ));
     }
+    // CurrINF follows exactly when CurrHF crosses into another segment of the segment table
+    if h1 == h0 + 1 && (h1 as usize) < hb.total() {
+        let seg = |x: usize| -> usize {
+            let mut a = 0;
+            for (j, l) in hb.sl.iter().enumerate() {
+                if x < a + *l as usize {
+                    return j;
+                }
+                a += *l as usize;
+            }
+            3
+        };
+        let crossed = seg(h1 as usize) != seg(h0 as usize);
+        if crossed != (c1 == c0 + 1) && c1 >= c0 {
+            pvs.push(pv(
+                format!("Monotone:{}:curr_inf-not-following:{}", op.api(), cls),
+                format!("{} moved CurrHF {} -> {} ({}) but CurrINF {} -> {}: {}", op.api(), h0, h1, if crossed { "into the next segment" } else { "inside the segment" }, c0, c1, desc()),
+            ));
+        }
+    }
     if op == Op::Egr && h1 != h0 + 1 && h1 >= h0 {
         pvs.push(pv(format!("Monotone:advance_egress:not-forward:{}", cls), format!("advance_egress returned {} without moving CurrHF forward: {}", out.k, desc())));
     }
